@@ -221,6 +221,52 @@ def remote_failure_section(rng, thorough, res, count):
                         res["violations"].append(("other-planned-files-not-delivered", f"one remote failure (for {victim}) kept {others} from being delivered", rep))
                     if rc != 0 and os.path.basename(victim) not in err + out:
                         res["violations"].append(("failed-file-not-reported", f"the run failed (rc {rc}) without naming {victim}", rep))
+    # a source FILE where the destination holds a non-empty DIRECTORY of that name (trees of regular files, any nesting): the file
+    # cannot be delivered; the run may not exit 0 (D20: the remote `mv` moved the staged file INTO the directory and succeeded)
+    for direction in ("push", "local", "pull"):
+        src = {"d": (b"a file named d", 1_650_000_000, 0), "e.txt": (b"ordinary", 1_650_000_001, 0)}
+        dst = {"d/inner.txt": (b"inside the directory d", 1_500_000_000, 0)}
+        with Sandbox("C04rf") as sb:
+            rc, out, err, s1, d1, sroot, droot = run_case(sb, rng, direction, src, dst, ["--jobs", "1"], count)
+            n += 1
+            count(f"file-vs-directory/{direction}")
+            rep = {"direction": direction, "src": sorted(src), "dst": sorted(dst), "rc": rc, "stderr": err[-300:], "after": sorted(d1)}
+            if rc == 0 and d1.get("d", (None,))[0] != src["d"][0]:
+                res["violations"].append(("exit-0-but-planned-file-not-delivered", f"source file d vs destination directory d/: copia exited 0, destination now holds {sorted(d1)}", rep))
+            if d1.get("d/inner.txt", (None,))[0] != dst["d/inner.txt"][0]:
+                res["violations"].append(("file-outside-plan-changed", "d/inner.txt is not in the plan and was changed or removed", rep))
+    # the reverse clash under `--delete` with a whole-path exclude: the destination holds a FILE `conf/site` that is excluded,
+    # the source a directory `conf/site/` with a file to send. Whatever the run makes of the clash, the excluded file is protected.
+    for direction in ("local", "pull", "push"):
+        for pat in ("conf/site", "conf/?ite", "*/site"):
+            src = {"conf/site/child.txt": (b"needs a directory", 1_650_000_000, 0), "e.txt": (b"ordinary", 1_650_000_001, 0)}
+            dst = {"conf/site": (b"excluded destination file", 1_500_000_000, 0), "stale.txt": (b"stale", 1_500_000_000, 0)}
+            with Sandbox("C04rf") as sb:
+                flags = ["--delete", "--exclude", pat]
+                rc0, out0, err0, s0, d0, sroot, droot = run_case(sb, rng, direction, src, dst, flags, count, dry=True)
+                rc, out, err, s1, d1, sroot, droot = run_case(sb, rng, direction, src, dst, flags, count)
+                n += 1
+                count(f"excluded-file-vs-directory/{direction}")
+                rep = {"direction": direction, "flags": flags, "src": sorted(src), "dst": sorted(dst), "rc": rc, "stderr": err[-300:], "after": sorted(d1)}
+                if d1.get("conf/site", (None,))[0] != dst["conf/site"][0]:
+                    res["violations"].append(("excluded-destination-file-removed", f"destination file conf/site matches --exclude {pat} and was removed or replaced (rc {rc})", rep))
+                if d0 != {k: v for k, v in dst.items()}:
+                    res["violations"].append(("dry-run-modified-destination", "the dry run changed the destination", rep))
+    # the remote account has CDPATH set (and a directory of the root's name under it): the listing must be that of the root given
+    for direction in ("pull", "push"):
+        src = {"a.txt": (b"first in the listing", 1_650_000_000, 0), "b.txt": (b"second", 1_650_000_001, 0), "sub/c.txt": (b"third", 1_650_000_002, 0)}
+        dst = {"b.txt": (b"older b", 1_500_000_000, 0), "stale.txt": (b"stale", 1_500_000_000, 0)}
+        with Sandbox("C04rf") as sb:
+            decoy = sb.path("decoy"); os.makedirs(os.path.join(decoy, "rsrc")); os.makedirs(os.path.join(decoy, "rdst"))
+            open(os.path.join(decoy, "rsrc", "wrong.txt"), "wb").write(b"not the tree"); open(os.path.join(decoy, "rdst", "wrong.txt"), "wb").write(b"not the tree")
+            sb.env["CDPATH"] = decoy + ":."
+            rc, out, err, s1, d1, sroot, droot = run_case(sb, rng, direction, src, dst, ["--delete"], count)
+            n += 1
+            count(f"remote-cdpath/{direction}")
+            rep = {"direction": direction, "remote CDPATH": "<decoy>:.", "rc": rc, "stderr": err[-300:], "after": sorted(d1)}
+            want = {k: v[:2] for k, v in src.items()}
+            if rc == 0 and {k: v[:2] for k, v in d1.items()} != want:
+                res["violations"].append(("exit-0-but-destination-ne-source", f"with CDPATH set in the remote account the run exited 0 and the destination holds {sorted(d1)} (source: {sorted(src)})", rep))
     return n
 
 
@@ -248,7 +294,7 @@ def location_section(rng, thorough, rundir, model_run, res, count):
                 args = [bytes.fromhex(t).decode("utf-8", "replace") for t in lines[0].split(" ")[:-1]]
                 host = args[0] if args else ""
                 cmd = args[1] if len(args) > 1 else ""
-                m = re.match(r"cd \$'(.*)' && find ", cmd, re.S)
+                m = re.match(r"(?:CDPATH= )?cd \$'(.*)' && find ", cmd, re.S)      # (the `CDPATH=` guard came with the D21 repair)
                 path = _unescape_ansi(m.group(1)) if m else "?" + cmd[:40]
                 im = f"R {hexs(host)} {hexs(path)}"
                 count("location/remote")
@@ -474,6 +520,8 @@ def run(pid, tier, seed, rundir, model_run):
         nl, ldis = location_section(rng, thorough, rundir, model_run, res, count)
         ndis += ldis
         remote_failure_section(rng, thorough, res, count)
+    if pid == "C15":
+        remote_failure_section(rng, thorough, res, count)      # (for its excluded-file-vs-directory part: excludes protect)
     if ndis:
         res["broken"].append(f"{pid}/corr: model and implementation disagree on {ndis} of {len(ops)} runs")
     res.update(evaluations=len(ops), distinct_nontrivial=len({q for q in ops if q.count("=") >= 2}), n_disagreements=ndis,
